@@ -436,10 +436,66 @@ func (b *builder) negative(h vkit.GJ) (vkit.GJ, string, bool) {
 	return h, "", false
 }
 
+// closure builds a pair of polygons whose rings are spelled with or without the closing vertex: the same rings, perturbed,
+// in a drawn order, no start vertex rotated. They are similar exactly when every ring is spelled the same way on both
+// sides; a ring that has its closing vertex on one side only has another vertex count there - also when a second ring
+// makes up for it the other way round, so that the totals agree.
+func (b *builder) closure() (g, h vkit.GJ, want bool, label string) {
+	k := rapid.IntRange(2, 3).Draw(b.t, "closurerings")
+	var rs [][]vkit.P2 // every ring in a block of its own (no look-alikes: the pairing of the rings has to be unambiguous)
+	for i := 0; i < k; i++ {
+		rs = append(rs, b.ring())
+	}
+	mode := rapid.SampledFrom([]string{"same_all_open", "same_mixed", "swap", "swap", "toggle_one"}).Draw(b.t, "closuremode")
+	cg, ch := make([]bool, k), make([]bool, k) // closed?
+	for i := range cg {
+		cg[i] = mode != "same_all_open" && rapid.Bool().Draw(b.t, "closedg")
+		ch[i] = cg[i]
+	}
+	want = true
+	switch mode {
+	case "swap":
+		a := rapid.IntRange(0, k-1).Draw(b.t, "swapa")
+		bb := (a + rapid.IntRange(1, k-1).Draw(b.t, "swapb")) % k
+		cg[a], ch[a], cg[bb], ch[bb] = true, false, false, true
+		want = false
+	case "toggle_one":
+		a := rapid.IntRange(0, k-1).Draw(b.t, "togglea")
+		ch[a] = !cg[a]
+		want = false
+	}
+	spell := func(open []vkit.P2, closed bool) []vkit.P2 {
+		if closed {
+			return append(append([]vkit.P2{}, open...), open[0])
+		}
+		return append([]vkit.P2{}, open...)
+	}
+	var gr, hr [][]vkit.P2
+	for i, r := range rs {
+		open := r[:len(r)-1]
+		gr = append(gr, spell(open, cg[i]))
+		hr = append(hr, spell(b.jitPts(open), ch[i]))
+	}
+	nt := false
+	hr = permute(b, hr, &nt)
+	g, h = vkit.GJ{T: "Polygon", Rings: gr}, vkit.GJ{T: "Polygon", Rings: hr}
+	switch rapid.IntRange(0, 2).Draw(b.t, "closurewrap") {
+	case 1:
+		g, h = vkit.GJ{T: "MultiPolygon", Polys: [][][]vkit.P2{gr}}, vkit.GJ{T: "MultiPolygon", Polys: [][][]vkit.P2{hr}}
+	case 2:
+		g, h = vkit.GJ{T: "GeometryCollection", Geoms: []vkit.GJ{g}}, vkit.GJ{T: "GeometryCollection", Geoms: []vkit.GJ{h}}
+	}
+	return g, h, want, "closure:" + mode
+}
+
 func gen(t *rapid.T) Case {
 	b := &builder{t: t, tol: rapid.SampledFrom([]float64{1e-6, 1e-3, 0.1, 1}).Draw(t, "tol")}
 	var c Case
 	c.Tol = b.tol
+	if rapid.IntRange(0, 7).Draw(t, "closurecase") == 3 {
+		c.G, c.H, c.Want, c.Edit = b.closure()
+		return c
+	}
 	c.G = b.geom(rapid.IntRange(0, 2).Draw(t, "depth"))
 	nontriv := false
 	c.H = b.positive(c.G, &nontriv)
